@@ -1,4 +1,5 @@
 import ClipVerif.Proofs.C13
+import ClipVerif.Proofs.C17
 /-
 C13 — results do not depend on coordinate magnitude within the advertised range.  Proved about the
 generated arithmetic leaves: they are invariant under every translation (differences are taken
@@ -15,19 +16,19 @@ def shift (p v : Point64) : Point64 := ⟨p.X + v.X, p.Y + v.Y⟩
 
 theorem crossProduct_translation_invariant (p1 p2 p3 v : Point64) :
     CrossProduct (shift p1 v) (shift p2 v) (shift p3 v) = CrossProduct p1 p2 p3 := by
-  sorry
+  simp only [CrossProduct, shift, Proofs.C13.sub_shift]
 
 theorem dotProduct_translation_invariant (p1 p2 p3 v : Point64) :
     dotProduct64 (shift p1 v) (shift p2 v) (shift p3 v) = dotProduct64 p1 p2 p3 := by
-  sorry
+  simp only [dotProduct64, shift, Proofs.C13.sub_shift]
 
 theorem isCollinear_translation_invariant (p1 p2 p3 v : Point64) :
     isCollinear (shift p1 v) (shift p2 v) (shift p3 v) = isCollinear p1 p2 p3 := by
-  sorry
+  simp only [isCollinear, shift, Proofs.C13.sub_shift]
 
 theorem segsIntersect_translation_invariant (a b c d v : Point64) (inc : Bool) :
     segsIntersect (shift a v) (shift b v) (shift c v) (shift d v) inc = segsIntersect a b c d inc := by
-  sorry
+  simp only [segsIntersect, crossProduct_translation_invariant]
 
 /-- inside the advertised range the int64 cross product has the wrong sign: the full-strength
     exactness statement (for |coordinate| ≤ 2^61) is false -/
@@ -35,18 +36,21 @@ theorem crossProduct_exact_to_maxcoord_false :
     ¬ (∀ p1 p2 p3 : Point64,
         (∀ p ∈ [p1, p2, p3], p.X.toInt.natAbs ≤ 2 ^ 61 ∧ p.Y.toInt.natAbs ≤ 2 ^ 61) →
         (CrossProduct p1 p2 p3 < 0 ↔ crossZ p1 p2 p3 < 0)) := by
-  sorry
+  intro h
+  have := h ⟨0, 0⟩ ⟨4294967296, 0⟩ ⟨4294967296, 2147483648⟩ (by decide)
+  revert this
+  decide
 
 /-- already at 2^32: a concrete triple whose exact cross product is positive while the library's is not -/
 theorem crossProduct_overflow_witness :
     ∃ p1 p2 p3 : Point64, (∀ p ∈ [p1, p2, p3], p.X.toInt.natAbs ≤ 2 ^ 32 ∧ p.Y.toInt.natAbs ≤ 2 ^ 32) ∧
       0 < crossZ p1 p2 p3 ∧ ¬ (0 < CrossProduct p1 p2 p3) := by
-  sorry
+  exact ⟨⟨0, 0⟩, ⟨4294967296, 0⟩, ⟨4294967296, 2147483648⟩, by decide, by decide, by decide⟩
 
 /-- the exact doubled area of a closed path is translation invariant, so the wrapped accumulator of
     Area64 (Props/C14 `area64_accumulator`) is too -/
 theorem area2_translate (path : List IPt) (dx dy : Int) :
     Spec.area2 (path.map fun v => ⟨v.x + dx, v.y + dy⟩) = Spec.area2 path := by
-  sorry
+  exact Proofs.C17.area2_translate path dx dy
 
 end C13
